@@ -26,6 +26,8 @@ func init() {
 			"a counting context wraps a real cancelCtx and cancels it inside its k-th Done() call, k enumerated over EVERY poll 1..K of the main thread (K = polls of the reference run, capped); inside coroutines (which poll a derived context) the cancel is placed by a host function cancel() at generated points; " +
 			"oracle per (program, k): DoString returns an error whose text carries the context's reason; no host call (emit) completes after the cancellation; polls after the cancel <= 4*(protected-call nesting + 2); the trace before the cancel is a prefix of the uncancelled/reference trace; " +
 			"blocking channel operations (receive, send, select) with no counterpart are cancelled by the harness after a handshake: the script goroutine must return with the reason; a goroutine still parked in a channel operation nobody else can complete is a violation (deadlock), any other watchdog firing is inconclusive; " +
+			"every program also with the context attached to a NewThread state only and run by Resume (every 4th poll); after-cancel probes on a share of the runs: protected calls of one-instruction Lua functions and Resume of a new thread must fail with the reason, a SETTABLE of a freshly called function must not take effect; blocking operations also in tail position; " +
+			"pools: 8 states in goroutines take 3000 values from one 1-slot channel, the feeder goes quiet, the pool drains, the common context is cancelled: every state must return the reason (a state parked in receive on the empty channel is a violation); " +
 			"non-trivial = the cancel struck while the script was running (k within the run); distinct by (program, k)",
 		Assumptions: []string{
 			"mainLoopWithContext polls Done() once per dispatched instruction (read in vm.go); context.WithCancel on our wrapper registers children on the wrapped cancelCtx (Done() returns its channel), so cancellation reaches coroutines synchronously",
